@@ -20,6 +20,41 @@ claim('C06',
       'bounded exhaustive schedule enumeration + deviation-bounded scripted-environment exploration of the real loop',
       'DESIGN.md#c06')
 
+claim('C12',
+      'All sub-multigraphs of K_n (n<=4 quick, <=5 thorough; plus a parallel line and a jumper, i.e. all 2^L on/off '
+      'patterns) x all enable patterns of three slack generators are fed to the real System.connectivity and compared '
+      'with union-find components; every single-island-plus-isolated pattern goes through the real power flow and is '
+      'compared with the reduced network; every bus subset (<=2 / <=3) is switched off through each public call and '
+      'the set of devices that went off is compared with the attachment map; all pairs (triples) of line toggles in a '
+      'static simulation.',
+      'Trusts the union-find reference and the hand-written attachment map of the 4-bus test system; Fortescue '
+      'devices are not generated; switching a bus ON after setup is documented unsupported.',
+      'exhaustive input-shape enumeration (all subgraphs x status patterns) against a union-find reference',
+      'DESIGN.md#c12')
+
+claim('C19',
+      'Every System.add history of depth <=3 (<=4) over two models of one group x an index alphabet with duplicates, '
+      'numeric/string twins, auto-index look-alikes and NaN is executed on a real System; after each add and after '
+      'setup the group/model registries and every lookup (idx2model, idx2uid, get, find_idx model/group, allow_none, '
+      'allow_all, two-key) are compared with a dict-based registry; all assignments of <=3 referrers for the BackRef '
+      'users; each reference kind once dangling; all busf assignments for the DeviceFinder user.',
+      'Trusts the dict reference; only StaticGen is used for add-histories (the registry code is group-independent); '
+      'DeviceFinder is exercised through FLoad -> BusFreq.',
+      'explicit-state exploration of add-histories and reference patterns against a dict-based registry model',
+      'DESIGN.md#c19')
+
+claim('C20',
+      'At the real option-merging seam (System._update_config_object + Config + routine constructors) every assignment '
+      'of file value / option value in {absent, legal, illegal} to <=2 (<=3) fields of two sections x rc-file presence '
+      '(none, all sections, only used sections, other sections) plus malformed strings is executed and compared with a '
+      'precedence dict; real System objects get every one of the ~400 fields through each channel in turn, with '
+      'save -> load round trip of value and type, dict channel, run-time update; the step actually taken equals '
+      'TDS.tstep per channel.',
+      'Trusts the reference coercion rule (int, else float, else text); numba/dime/seed fields excluded from all-field '
+      'runs; dict-vs-option conflicts unspecified and not explored.',
+      'exhaustive channel/value-class enumeration at the configuration seam against a precedence-dict reference',
+      'DESIGN.md#c20')
+
 _PENDING = 'check not built yet in this round; planned per DESIGN.md (bounded exhaustive exploration applies)'
 for _p in ALL:
     if _p not in CLAIMED:
